@@ -503,6 +503,10 @@ func (s *State) evalBuiltin(node *ast.Builtin) object.Object {
 	}
 	var val object.Object
 	var rt object.Type
+	if t == token.ERROR || t == token.PRINT || t == token.PRINTLN {
+		// these evaluate all their parameters themselves (evaluating the first one here too ran it twice).
+		return s.evalPrintLogError(node)
+	}
 	if minV > 0 {
 		val = s.evalInternal(node.Parameters[0])
 		rt = val.Type()
